@@ -241,7 +241,12 @@ def encode(records, extra=None, fill=0xCD):
     return bytes(out), len(out)
 
 
+ROUNDTRIP_PROBLEMS = []   # filled by selftest(); reported by the check as findings about the library, not as infrastructure
+
+
 def selftest():
+    """Layout of the shimmed ctypes surface (infrastructure: raises) and one round trip through the fake kernel32
+    (library behaviour: recorded in ROUNDTRIP_PROBLEMS)."""
     w = _loaded[MODS[0]]
     F = w.FileNotifyInformation
     problems = []
@@ -249,26 +254,35 @@ def selftest():
         problems.append("DWORD/BOOL are not 32 bit")
     if (F.NextEntryOffset.offset, F.Action.offset, F.FileNameLength.offset, F.FileName.offset) != (0, 4, 8, 12):
         problems.append(f"FILE_NOTIFY_INFORMATION layout is wrong: FileName at {F.FileName.offset}")
-    recs = [(1, "d"), (4, "d/f"), (5, "e/f"), (3, "")]
-    buf, n = encode(recs, extra=[0, 1, 0, 2])
-    got = w._parse_event_buffer(buf + b"\xAA" * 16, n)
-    if got != recs:
-        problems.append(f"round trip failed: {got}")
-    # through the fake kernel32 and the real read_events
-    K.reset()
-    K.reads.append(("data", buf))
-    h = w.get_directory_handle("/x")
-    evs = w.read_events(h, "/x", recursive=True)
-    if [(e.action, e.src_path) for e in evs] != recs or ("ReadDirectoryChangesW", h, True) not in K.calls:
-        problems.append(f"read_events through the fake kernel32 failed: {evs}")
-    K.reset(final_path="\\Device\\gone")
-    K.reads.append(("error", ERROR_ACCESS_DENIED))
-    evs = w.read_events(h, "/x", recursive=True)
-    if len(evs) != 1 or not evs[0].is_removed_self:
-        problems.append(f"root-deleted path does not yield DELETED_SELF: {evs}")
-    K.reset()
     if problems:
         raise RuntimeError("winsim self-test: " + "; ".join(problems))
+    del ROUNDTRIP_PROBLEMS[:]
+    recs = [(1, "d"), (4, "d/f"), (5, "e/f"), (3, "")]
+    try:
+        buf, n = encode(recs, extra=[0, 1, 0, 2])
+        got = w._parse_event_buffer(buf + b"\xAA" * 16, n)
+        if got != recs:
+            ROUNDTRIP_PROBLEMS.append(f"_parse_event_buffer(encode({recs})) = {got}")
+        # through the fake kernel32 and the real read_events
+        K.reset()
+        K.reads.append(("data", encode(recs)[0]))
+        h = w.get_directory_handle("/x")
+        evs = w.read_events(h, "/x", recursive=True)
+        if [(e.action, e.src_path) for e in evs] != recs:
+            ROUNDTRIP_PROBLEMS.append(f"read_events through the fake kernel32 returned {evs} for {recs}")
+        if ("ReadDirectoryChangesW", h, True) not in K.calls:
+            raise RuntimeError("winsim self-test: the fake ReadDirectoryChangesW was not called")
+        K.reset(final_path="\\Device\\gone")
+        K.reads.append(("error", ERROR_ACCESS_DENIED))
+        evs = w.read_events(h, "/x", recursive=True)
+        if len(evs) != 1 or not evs[0].is_removed_self:
+            ROUNDTRIP_PROBLEMS.append(f"a failing read with the root gone does not yield DELETED_SELF: {evs}")
+    except RuntimeError:
+        raise
+    except Exception as e:  # noqa: BLE001
+        ROUNDTRIP_PROBLEMS.append(f"{type(e).__name__}: {e} while decoding {recs}")
+    finally:
+        K.reset()
 
 
 # =================================================================================================
